@@ -3,6 +3,8 @@
 package api
 
 import (
+	"errors"
+	"net"
 	"net/http"
 	"strconv"
 
@@ -71,5 +73,80 @@ func VerifC18_Stall() {
 	for i := 0; i < n; i++ {
 		buf.Write("line") // REAL code; must return
 	}
+	verifReach("end")
+}
+
+var verifDisconnect chan struct{}
+var verifSocketStalls bool
+var verifSent int
+
+func verifReadUntilDisconnect(c *websocket.Conn) (int, []byte, error) {
+	<-verifDisconnect
+	return -1, nil, &websocket.CloseError{Code: websocket.CloseGoingAway}
+}
+func verifWriteJSONMaybe(c *websocket.Conn, v interface{}) error {
+	if verifSocketStalls {
+		// the socket write blocks while the peer does not read, and fails once the peer is gone
+		select {
+		case <-verifStallForever:
+		case <-verifDisconnect:
+			return net.ErrClosed
+		}
+	}
+	verifSent++
+	return nil
+}
+
+// C18 (follower disconnects): a websocket follower that goes away - after reading everything,
+// or after it had stopped reading - never harms the process it follows: no Write panics, every
+// Write returns once the follower is gone, and the follower ends up unsubscribed.
+func VerifC18_Disconnect() {
+	verifUnwind(700)
+	verifStallForever = make(chan struct{})
+	verifDisconnect = make(chan struct{})
+	verifSent = 0
+	verifSetGlobal("net", "ErrClosed", errors.New("use of closed network connection"))
+	verifBind("(*github.com/gorilla/websocket.Upgrader).Upgrade", verifUpgrade)
+	verifBind("(*github.com/gorilla/websocket.Conn).WriteJSON", verifWriteJSONMaybe)
+	verifBind("(*github.com/gorilla/websocket.Conn).ReadMessage", verifReadUntilDisconnect)
+	verifBind("(*github.com/gorilla/websocket.Conn).Close", verifWsClose)
+	verifBind("(*github.com/gin-gonic/gin.Context).Query", verifGinQuery)
+	verifBind("github.com/f1bonacc1/process-compose/src/pclog.GenerateUniqueID", verifUniqueID)
+	verifQuery = map[string]string{"name": "p", "follow": "true", "offset": "0"}
+	buf := pclog.NewLogBuffer(1000)
+	prj := &verifLogProject{buf: buf}
+	api := &PcApi{project: prj}
+	verifSocketStalls = verifChooseK("client.stopped.reading", 2) == 1
+	n := 3
+	if verifSocketStalls {
+		verifShape("stalled.then.gone")
+		n = 300 // more than the follower's queue holds: the writer is held up until the client is gone
+	} else {
+		verifShape("reading.then.gone")
+	}
+	api.HandleLogsStream(&gin.Context{}) // REAL handler
+	written := make(chan int, 1)
+	go func() {
+		verifGoroutineName("process.output")
+		for i := 0; i < n; i++ {
+			buf.Write("line") // REAL code: must not panic
+			if !verifSocketStalls {
+				verifYield("written")
+			}
+		}
+		written <- n
+	}()
+	verifYield("client.about.to.disconnect")
+	if verifSocketStalls {
+		verifQuiesce() // the writer is stuck behind the stalled follower
+	}
+	close(verifDisconnect) // the client goes away
+	verifQuiesce()
+	select {
+	case <-written:
+	default:
+		verifFail("writer.still.held.up.after.the.follower.is.gone")
+	}
+	verifAssert("every.line.is.in.the.log", buf.GetLogLength() == n)
 	verifReach("end")
 }
